@@ -104,6 +104,13 @@ CHECKS["C17"] = dict(
          "initialize_initial_state are compared entry-wise by assignment with the template CPDs.",
     note="Bounds: <=3 variables per slice, T<=3 (4 thorough), evidence in <=2 slices, positive entries. Two recorded known findings concern the "
          "backward pass; forward inference is checked without exceptions.", ref="5/C17")
+CHECKS["C16"] = dict(
+    text="On ONE VariableElimination / BeliefPropagation / CausalInference engine, sequences of questions (query, joint=False, MAP, virtual evidence, "
+         "evidence) run with all CPD entries symbolic: every answer in the sequence is shown equal to the joint oracle (= a fresh engine's answer) for "
+         "all table values, and the model handed to the engine is entry-identical (same objects) after every call. The same question under permuted "
+         "node/edge/CPD insertion orders, 4 node-name and 6 state-name styles and two hash seeds is compared with the same oracle after relabelling. "
+         "Scoring, estimation, structure search, conversion, export and sampling calls are checked for input purity and repeatability on concrete inputs.",
+    note="Bounds: <=4 nodes, sequences of length 3 (4 thorough); torch backend and dtype switching are outside the claim.", ref="5/C16")
 
 NOT_APPLICABLE = {
     "C19": "statistic, dof and p-value are produced inside pandas.groupby / numpy.bincount / scipy.stats.chi2_contingency / chi2.cdf "
